@@ -201,7 +201,7 @@ func dense(r *runner) {
 	denseEnum(r, "table-interleaved-long", ssyms, c.N(5, 7), tcase, nil)
 
 	// numerical
-	nsyms := []string{"0", "1", "2", "-1.5", "1e3", "x"}
+	nsyms := []string{"0", "1", "2", "-1.5", "1e3", "x", "010"}
 	qs := []float64{0, 0.25, 0.5, 0.75, 0.9, 1.0}
 	denseEnum(r, "numerical", nsyms, c.N(5, 7), Case{Agg: "numerical", Keep: true, Full: true, Qs: qs}, nil)
 	denseEnum(r, "numerical-reverse", nsyms, c.N(5, 7), Case{Agg: "numerical", Keep: true, Reverse: true, Full: true, Qs: qs}, nil)
@@ -556,7 +556,7 @@ func genTable(rr *run.Rand, c *run.Ctx) (*Case, []string) {
 	return cs, samples
 }
 
-var junkNums = []string{"abc", "", "1,5", "12a", "--1", " ", "1.2.3", "e5", "$4"}
+var junkNums = []string{"abc", "", "1,5", "12a", "--1", " ", "1.2.3", "e5", "$4", "0x1F", "0b11", "0o17"}
 var qPool = []float64{0, 0.001, 0.01, 0.1, 0.25, 0.5, 0.75, 0.9, 0.95, 0.99, 0.999, 1.0, 1 - 1.0/(1<<53), 1.0 / 3}
 
 func genNumerical(rr *run.Rand, c *run.Ctx) (*Case, []string) {
@@ -610,6 +610,10 @@ func genNumerical(rr *run.Rand, c *run.Ctx) (*Case, []string) {
 		}
 		if rr.Intn(2) == 0 && v == math.Trunc(v) && math.Abs(v) < 1e15 {
 			samples[i] = strconv.FormatInt(int64(v), 10)
+			if v >= 0 && rr.Intn(6) == 0 {
+				// fixed-width, zero-padded decimal fields: still decimal (0100 is one hundred)
+				samples[i] = strings.Repeat("0", rr.Range(1, 3)) + samples[i]
+			}
 		} else {
 			samples[i] = strconv.FormatFloat(v, byte("gef"[rr.Intn(2)]), -1, 64)
 		}
